@@ -873,6 +873,10 @@ class ExprMixin:
         if attr in om:
             return BoundMethod(base, attr)
         bt_ = base.term if isinstance(base, VObj) else (base.val.term if isinstance(base, VOpt) and isinstance(base.val, VObj) else base)
+        va = getattr(self.cur_contract, 'volatile_attrs', None) or {}
+        if attr in va:
+            self.path.trace.append(('read', attr))
+            return self.sym_of_sort(va[attr], 'v_' + attr, None)
         oa = getattr(self.cur_contract, 'opaque_attrs', None) or {}
         if attr in oa:
             S = oa[attr]
@@ -892,6 +896,11 @@ class ExprMixin:
                             v = self.ite(same, wv, v)
             return v
         raise Unsupported(f'opaque attribute {attr}: declare it under Contract.opaque')
+
+    def ev_Await(self, e, fr):
+        # sequential reading of a coroutine: the awaited call is made and its result is the value (what else runs meanwhile is
+        # outside the function; attributes the outside world changes must be declared volatile)
+        return self.ev(e.value, fr)
 
     def ev_Starred(self, e, fr):
         raise Unsupported('starred')
